@@ -116,6 +116,13 @@ func goExpr(val gopast.Expr) ast.Expr {
 			Index:  goExpr(v.Index),
 			Rbrack: v.Rbrack,
 		}
+	case *gopast.IndexListExpr:
+		return &ast.IndexListExpr{
+			X:       goExpr(v.X),
+			Lbrack:  v.Lbrack,
+			Indices: goExprs(v.Indices),
+			Rbrack:  v.Rbrack,
+		}
 	case *gopast.ParenExpr:
 		return &ast.ParenExpr{
 			Lparen: v.Lparen,
